@@ -1,6 +1,6 @@
 """Per-property configuration of the driver: budgets, evidence floors, rule texts, passes."""
 
-SETUP_VARIANTS = ["verif"]
+SETUP_VARIANTS = ["verif", "rel"]
 
 COMMON_ASSUMPTIONS = [
     "exploration only: the verdict covers the executions listed in coverage, nothing else",
